@@ -29,6 +29,16 @@ Init == depth = 1 /\ tree \in {Mk(p, 0, Lit) : p \in Productions}
 Wrap(p, i) == depth < MaxDepth /\ tree' = Mk(p, i, tree) /\ depth' = depth + 1
 Next == \E p \in Productions : \E i \in 1..Arity(p) : Wrap(p, i)
 Spec == Init /\ [][Next]_<<tree, depth>>
+(* Three levels along one path, for the shapes where structure is lost between passes (9b2141d: a set in a script in a cell of a
+   determinant): a row with several operands, inside a scripted construct, inside a two-dimensional container - exhaustively. *)
+Rows == {"sum", "diff", "product", "times", "list", "set", "fcall", "interval", "eq", "mfencedlist", "vector", "ratio", "mixed", "mod"}
+Scripted == {"sup", "sub", "subsup", "multiscripts", "sumlimits", "integral", "underbrace", "lim", "logbase", "overbar", "root"}
+Containers == {"table2x2", "det2x2", "cases", "labeledrow", "frac", "sqrt", "abs", "norm", "binomial", "menclose"}
+ChainInit == depth = 1 /\ tree \in {Mk(p, 0, Lit) : p \in Rows}
+ChainNext == \/ depth = 1 /\ \E p \in Scripted : \E i \in 1..Arity(p) : Wrap(p, i)
+             \/ depth = 2 /\ \E p \in Containers : \E i \in 1..Arity(p) : Wrap(p, i)
+ChainSpec == ChainInit /\ [][ChainNext]_<<tree, depth>>
+ExportChain == depth = 3 => PrintT(<<"REPLAY", ToJson(tree)>>)
 Export == PrintT(<<"REPLAY", ToJson(tree)>>)
 ExportDeep == depth = MaxDepth => PrintT(<<"REPLAY", ToJson(tree)>>)
 =============================================================================
